@@ -227,7 +227,7 @@ def split_top(s, sep=','):
     return out
 
 
-CLAUSES = ('threadlocal', 'rely', 'params', 'results', 'takes', 'maypanic', 'requires', 'ensures', 'modifies', 'loop', 'property', 'assume', 'trusted', 'inline', 'panics', 'note', 'spawns', 'onpanic', 'decreases', 'ghost', 'reads', 'unroll', 'atexit', 'prestate', 'nosafety', 'lemma', 'implements', 'uses', 'forbid')
+CLAUSES = ('threadlocal', 'rely', 'params', 'results', 'takes', 'maypanic', 'requires', 'ensures', 'modifies', 'loop', 'property', 'assume', 'trusted', 'inline', 'panics', 'note', 'spawns', 'onpanic', 'decreases', 'ghost', 'reads', 'unroll', 'atexit', 'prestate', 'nosafety', 'lemma', 'implements', 'uses', 'forbid', 'nilable')
 
 
 class FuncContract:
